@@ -222,6 +222,7 @@ type scen18 struct {
 	name    string
 	sent    []map[string]interface{}
 
+	bigChunks  int // number of chunks the last "okbig" frame took
 	oracleOnly bool
 	collision  map[string]interface{}
 }
@@ -269,6 +270,24 @@ func (s *scen18) frame(kind string, id uint32, forT int, want int) error {
 	switch kind {
 	case "ok":
 		err = s.p.Srv.Respond(id, mkResponse(want, id, ua.StatusOK, tag))
+	case "okbig": // a response that needs several chunks
+		r := &ua.WriteResponse{ResponseHeader: respHeader(id, ua.StatusOK, tag), Results: make([]ua.StatusCode, 5000)}
+		before := len(s.p.Proxy.Frames("s2c"))
+		err = s.p.Srv.Respond(id, r)
+		deadline := time.Now().Add(2 * time.Second)
+		n := 0
+		for time.Now().Before(deadline) {
+			fs := s.p.Proxy.Frames("s2c")[before:]
+			if len(fs) > 0 && fs[len(fs)-1].Chunk == "F" {
+				n = len(fs)
+				break
+			}
+			time.Sleep(time.Millisecond)
+		}
+		for i := 0; i+1 < n; i++ {
+			s.events = append(s.events, Ev{"chunkc", id})
+		}
+		s.bigChunks = n
 	case "wrongtype":
 		ty = tyRead + tyWrite - want
 		err = s.p.Srv.Respond(id, mkResponse(ty, id, ua.StatusOK, tag))
